@@ -357,11 +357,22 @@ def _connect_env(h, kind):
     state = {"n": 0}
 
     def boundary(it2, a, k):
-        """loop head: what one (failed) iteration did = one attempt, then exactly one sleep of reconnect_timeout"""
+        """loop head: what one (failed) iteration did = one attempt, then exactly one sleep of reconnect_timeout.
+        Rely of the threaded loops: while the loop sleeps, the user's thread may call stop()/disconnect(), which
+        clears `transport.protocol` - the only signal the loop gets.  At the arbitrary loop head either nothing
+        happened or that did; after it the log must stay as it is: no attempt, no reader, no callback."""
         state["n"] += 1
         if state["n"] <= 2:
             del log[:]
+            if state["n"] == 2 and kind.startswith("sync"):
+                kk = it2.ctx.choose([z3.BoolVal(True), z3.BoolVal(True)], labels=["running", "stopped-during-sleep"], site="user-stop")
+                if kk == 1:
+                    tr.attrs["protocol"] = None
+                    state["stopped"] = True
+                    log.append(("stopped",))
             return True
+        if state.get("stopped"):
+            return False  # an iteration was run although the user had stopped the gateway
         if [e[0] for e in log] != ["attempt", "sleep"]:
             return False
         if log[0][1] == "ok":
@@ -371,6 +382,8 @@ def _connect_env(h, kind):
     def success(it2, a, k):
         """function exit: a successful attempt, the reader started and connected exactly once"""
         names = [e[0] for e in log]
+        if state.get("stopped"):
+            return names == ["stopped"]  # nothing at all after the user's stop
         if kind.startswith("async"):
             want = ["attempt"] + (["check_connection"] if kind == "async-tcp" else [])
         else:
@@ -410,6 +423,8 @@ def _connect_contract(target, mod, qual, kind, cancel_ok):
         loops=_loop_contract(mod, qual),
         setup=lambda h: ([_connect_env(h, kind)], {}),
         raises=raises,  # only cancellation ends the asyncio loops; nothing ends the threaded ones but success
+        # returns only connected (once) - or, for the threaded loops, because the user stopped the gateway, and then
+        # without any further attempt, reader thread or callback
         ensures={"connected": lambda old, transport, result: connected_once()},
     )
     return contract(target, props=["C20"], name=f"{kind}_connect")(type(kind.replace("-", "_") + "_connect", (), ns))
